@@ -35,6 +35,7 @@ ASSUMPTIONS = [
     "iterative algorithm: the local-minimum clause is replaced by the fixed-point clause (minimising the cost with the covariance frozen at the reported optimum must stay within 2e-2 reference sigma for iminuit, 1e-1 for scipy = two scipy states of 5e-2 each; observed 0.061)",
     "multi-fits: the reference objective is the sum of the members' reference costs over the union of the parameter names (members share parameters only; sources shared through MultiFit.add_error are the workload of C10 / C11); the members use the default 'nonlinear' algorithm (the MultiFit's own dynamic_error_algorithm argument is not consulted by kafe2); the same clauses, tolerances and well-posedness rules as for single fits apply to the joint optimum",
     "a local-minimum alarm of the scipy backend is attributed to the open scipy-adapter finding by the 'do_fit() again continues' signature only if iminuit's optimum of the same case passed the clause (or rests on a limit): a failure that both backends share is not a property of the scipy adapter",
+    "a fixed-point alarm is attributed to the finding 'the iterative algorithm alternates between two points and returns unconverged' iff the reference iteration map T (covariance frozen at a point, documented cost minimised over the interior free parameters) sends the reported optimum p to q and q back to p, |T(q) - p| <= 0.1 |q - p| in reference sigma (a result that stopped short of a fixed point the iteration converges to has T(q) next to q and stays unclassified)",
     "cross-backend clause uses sigma from the reference Hessian over interior free parameters (1e-1 sigma = sum of the per-backend tolerances of C05, rounded up); a parameter on a limit must be on the same limit for both backends",
 ]
 ANCHORS = [
